@@ -1,14 +1,360 @@
-(** C02 — Select is exact and inverse to rank (placeholder until Proofs/SelectProofs.v lands). *)
+(** C02 — Select is exact and inverse to rank (Select32, Select32R64).
+    Only the property theorems (each closed by [exact]), their axiom audit and
+    non-vacuity examples.  Vocabulary (Spec/SelectSpec.v): [all_ones ws] is the ascending
+    list of the positions of the 1-bits of the bitmap, [spec_Select ws i] =
+    (its [i]-th element, its [i+1]-th element or [64 * len] when there is none),
+    [spec_IndexSelect32 ws] = every 32nd element.  Positions are unbounded [Z] in the
+    model; Go's int32 agrees while [64 * len(words) < 2^31] (DESIGN section 3).  No
+    theorem below bounds the number of words, the density or [i]. *)
 From Coq Require Import ZArith List Bool.
-From Low Require Import Lib.Bits Lib.BitSeq Model.Rank Model.Select Spec.RankSpec Spec.SelectSpec.
+From Low Require Import Lib.Bits Lib.BitSeq Model.Rank Model.Select Spec.RankSpec Spec.SelectSpec
+  Proofs.RankProofs Proofs.SelectProofs Proofs.SelectMain.
 Import ListNotations.
 Open Scope Z_scope.
 
-Lemma IndexSelect32R64_pair ws :
-  IndexSelect32R64 ws = match IndexSelect32 ws with Some s => Some (s, IndexRank64 ws true) | None => None end.
-Proof. reflexivity. Qed.
+(** the byte table, as [initSelectLookup] builds it: entry [8b+j] = position of the [j]-th
+    1-bit of byte [b], 8 when there is none (all 2048 entries) *)
+Theorem C02_select8Lookup : forall b j : nat, (b < 256)%nat -> (j < 8)%nat ->
+  nth_error select8Lookup (8 * b + j) = Some (nth j (ones (bits 8 (Z.of_nat b))) 8).
+Proof. exact select8Lookup_spec. Qed.
+Print Assumptions C02_select8Lookup.
 
-Theorem C02_IndexSelect32R64_partial : forall ws,
-  IndexSelect32R64 ws = match IndexSelect32 ws with Some s => Some (s, IndexRank64 ws true) | None => None end.
-Proof. exact IndexSelect32R64_pair. Qed.
-Print Assumptions C02_IndexSelect32R64_partial.
+(** the in-word search (32/16/8 halving + both table-index expressions) returns the
+    [k]-th 1-bit of ANY word *)
+Theorem C02_select_in_word : forall w (k : nat) v, 0 <= w ->
+  nth_error (ones (bits 64 w)) k = Some v -> select_in_word w (Z.of_nat k) = Some v.
+Proof. exact select_in_word_spec. Qed.
+Print Assumptions C02_select_in_word.
+
+(** IndexSelect32 lists the position of every 32nd 1-bit: ceil(n/32) entries *)
+Theorem C02_IndexSelect32 : forall ws,
+  IndexSelect32 ws = Some (spec_IndexSelect32 ws).
+Proof. exact IndexSelect32_exact. Qed.
+Print Assumptions C02_IndexSelect32.
+
+(** IndexSelect32R64 = (that select index, IndexRank64(words, true) = C01's rank index
+    with the trailing grand total) *)
+Theorem C02_IndexSelect32R64 : forall ws, words_ok ws ->
+  IndexSelect32R64 ws = Some (spec_IndexSelect32 ws, spec_IndexRank64 ws true).
+Proof. exact IndexSelect32R64_exact. Qed.
+Print Assumptions C02_IndexSelect32R64.
+
+Theorem C02_IndexSelect32R64_components : forall ws,
+  IndexSelect32R64 ws =
+  match IndexSelect32 ws with Some s => Some (s, IndexRank64 ws true) | None => None end.
+Proof. exact (fun ws => eq_refl). Qed.
+Print Assumptions C02_IndexSelect32R64_components.
+
+(** Select32 with the index IndexSelect32 built, for every valid [i] (including the last
+    1-bit, where the second component is [64 * len]) *)
+Theorem C02_Select32 : forall ws sidx i, words_ok ws -> IndexSelect32 ws = Some sidx ->
+  0 <= i < zlen (all_ones ws) ->
+  Select32 ws sidx i = Some (spec_Select ws i).
+Proof. exact Select32_indexed. Qed.
+Print Assumptions C02_Select32.
+
+(** Select32R64 with the two indexes IndexSelect32R64 built *)
+Theorem C02_Select32R64 : forall ws sidx ridx i, words_ok ws ->
+  IndexSelect32R64 ws = Some (sidx, ridx) -> 0 <= i < zlen (all_ones ws) ->
+  Select32R64 ws sidx ridx i = Some (spec_Select ws i).
+Proof. exact Select32R64_indexed. Qed.
+Print Assumptions C02_Select32R64.
+
+(** hence: the selected position is inside the bitmap, exactly [i] 1-bits precede it
+    (rank (select i) = i) and the selected bit is 1 *)
+Theorem C02_rank_select : forall ws i, 0 <= i < zlen (all_ones ws) ->
+  let a := fst (spec_Select ws i) in
+  0 <= a < 64 * zlen ws /\ rank1z (flat ws) a = i /\ bitz (flat ws) a = true.
+Proof. exact spec_Select_fst. Qed.
+Print Assumptions C02_rank_select.
+
+(** the second component is strictly after the first, at most [64 * len], the rank there is
+    [i + 1] (so no 1-bit lies strictly between them), and it is a 1-bit unless it is [64 * len] *)
+Theorem C02_next_one : forall ws i, 0 <= i < zlen (all_ones ws) ->
+  let a := fst (spec_Select ws i) in
+  let b := snd (spec_Select ws i) in
+  a < b <= 64 * zlen ws /\ rank1z (flat ws) b = i + 1 /\
+  (b < 64 * zlen ws -> bitz (flat ws) b = true).
+Proof. exact spec_Select_snd. Qed.
+Print Assumptions C02_next_one.
+
+(** and conversely the position with bit 1 and rank [i] is unique: [spec_Select] is not
+    "some list function", it is the property's "position of the i-th 1-bit" *)
+Theorem C02_select_unique : forall ws i a, 0 <= a -> bitz (flat ws) a = true ->
+  rank1z (flat ws) a = i ->
+  0 <= i < zlen (all_ones ws) /\ fst (spec_Select ws i) = a.
+Proof. exact spec_Select_unique. Qed.
+Print Assumptions C02_select_unique.
+
+(** the library's own rank (C01's model) applied to the library's select returns [i] and bit 1 *)
+Theorem C02_Rank64_of_Select32 : forall ws tr sidx i a b, words_ok ws ->
+  IndexSelect32 ws = Some sidx -> 0 <= i < zlen (all_ones ws) ->
+  Select32 ws sidx i = Some (a, b) ->
+  Rank64 ws (IndexRank64 ws tr) a = Some (i, 1).
+Proof. exact Rank64_Select32. Qed.
+Print Assumptions C02_Rank64_of_Select32.
+
+Theorem C02_Rank64_of_Select32R64 : forall ws tr sidx ridx i a b, words_ok ws ->
+  IndexSelect32R64 ws = Some (sidx, ridx) -> 0 <= i < zlen (all_ones ws) ->
+  Select32R64 ws sidx ridx i = Some (a, b) ->
+  Rank64 ws (IndexRank64 ws tr) a = Some (i, 1).
+Proof. exact Rank64_Select32R64. Qed.
+Print Assumptions C02_Rank64_of_Select32R64.
+
+(** non-vacuity.  A four-word bitmap with 35 1-bits: word 0 has 33 of them (so the second
+    checkpoint, the 32nd 1-bit, lies INSIDE word 0 and the masked first word is exercised),
+    word 1 is empty (word skipping), word 2 has one 1-bit in its top byte (the 32/16/8 halving
+    takes every upper half and the [(ww>>5)&0x7f8] table expression), word 3 has bit 0 set.
+    i = 33: found after skipping a word, next 1 in a later word; i = 34: the last 1-bit, the
+    second component is 64*4; i = 31 / 32: around the checkpoint. *)
+Definition c02_ex : list Z := [2^33 - 1; 0; 2^63; 1].
+
+Example C02_index_nonvacuous :
+  words_ok c02_ex /\ zlen (all_ones c02_ex) = 35 /\
+  IndexSelect32 c02_ex = Some [0; 32] /\
+  IndexSelect32R64 c02_ex = Some ([0; 32], [0; 33; 33; 34; 35]).
+Proof.
+  split; [apply words_okb_ok; reflexivity|].
+  vm_compute. intuition congruence.
+Qed.
+
+Example C02_select_nonvacuous :
+  words_ok c02_ex /\ 0 <= 33 < zlen (all_ones c02_ex) /\ 0 <= 34 < zlen (all_ones c02_ex) /\
+  Select32 c02_ex [0; 32] 31 = Some (31, 32) /\
+  Select32 c02_ex [0; 32] 32 = Some (32, 191) /\
+  Select32 c02_ex [0; 32] 33 = Some (191, 192) /\
+  Select32 c02_ex [0; 32] 34 = Some (192, 256) /\
+  Select32R64 c02_ex [0; 32] [0; 33; 33; 34; 35] 33 = Some (191, 192) /\
+  Select32R64 c02_ex [0; 32] [0; 33; 33; 34; 35] 34 = Some (192, 256) /\
+  spec_Select c02_ex 33 = (191, 192) /\ spec_Select c02_ex 34 = (192, 256).
+Proof.
+  split; [apply words_okb_ok; reflexivity|].
+  vm_compute. intuition congruence.
+Qed.
+
+Example C02_rank_select_nonvacuous :
+  rank1z (flat c02_ex) 191 = 33 /\ bitz (flat c02_ex) 191 = true /\
+  Rank64 c02_ex (IndexRank64 c02_ex true) 191 = Some (33, 1) /\
+  select_in_word (2^63) 0 = Some 63 /\
+  nth_error select8Lookup (8 * 128 + 0) = Some 7.
+Proof. vm_compute. intuition congruence. Qed.
+
+(** * widened: the library's select composed with the library's rank (Rank64 / Rank128 of C01)
+
+    [spec_SelectFrom ws p] (Spec/SelectRankSpec.v) = (first 1-bit at position >= p, the 1-bit
+    after it or [64 * len]), by filtering the list of 1-positions. *)
+From Low Require Import Spec.SelectRankSpec Proofs.SelectRank.
+
+(** rank (select i) = i also through Rank128 *)
+Theorem C02_Rank128_of_Select32 : forall ws sidx i a b, words_ok ws ->
+  IndexSelect32 ws = Some sidx -> 0 <= i < zlen (all_ones ws) ->
+  Select32 ws sidx i = Some (a, b) ->
+  Rank128 ws (IndexRank128 ws) a = Some (i, 1).
+Proof. exact Rank128_Select32. Qed.
+Print Assumptions C02_Rank128_of_Select32.
+
+Theorem C02_Rank128_of_Select32R64 : forall ws sidx ridx i a b, words_ok ws ->
+  IndexSelect32R64 ws = Some (sidx, ridx) -> 0 <= i < zlen (all_ones ws) ->
+  Select32R64 ws sidx ridx i = Some (a, b) ->
+  Rank128 ws (IndexRank128 ws) a = Some (i, 1).
+Proof. exact Rank128_Select32R64. Qed.
+Print Assumptions C02_Rank128_of_Select32R64.
+
+(** select (rank p) = the first 1-bit at or after p (and the one after it), for ANY position p
+    that has a 1-bit at or after it — p need not be a 1-bit *)
+Theorem C02_Select32_of_Rank64 : forall ws tr sidx p r b, words_ok ws ->
+  IndexSelect32 ws = Some sidx -> 0 <= p < 64 * zlen ws ->
+  Rank64 ws (IndexRank64 ws tr) p = Some (r, b) -> r < zlen (all_ones ws) ->
+  Select32 ws sidx r = Some (spec_SelectFrom ws p).
+Proof. exact Select32_after_Rank64. Qed.
+Print Assumptions C02_Select32_of_Rank64.
+
+Theorem C02_Select32R64_of_Rank128 : forall ws sidx ridx p r b, words_ok ws ->
+  IndexSelect32R64 ws = Some (sidx, ridx) -> 0 <= p < 64 * zlen ws ->
+  Rank128 ws (IndexRank128 ws) p = Some (r, b) -> r < zlen (all_ones ws) ->
+  Select32R64 ws sidx ridx r = Some (spec_SelectFrom ws p).
+Proof. exact Select32R64_after_Rank128. Qed.
+Print Assumptions C02_Select32R64_of_Rank128.
+
+(** the value [spec_SelectFrom] names is the least 1-position >= p: it is >= p, a 1-bit, every
+    position in between is 0, and it is p itself when p is a 1-bit (select (rank p) = p) *)
+Theorem C02_select_of_rank_least : forall ws p, 0 <= p ->
+  rank1z (flat ws) p < zlen (all_ones ws) ->
+  let a := fst (spec_Select ws (rank1z (flat ws) p)) in
+  p <= a < 64 * zlen ws /\ bitz (flat ws) a = true /\
+  (forall q, p <= q < a -> bitz (flat ws) q = false) /\
+  (bitz (flat ws) p = true -> a = p).
+Proof. exact select_after_rank_least. Qed.
+Print Assumptions C02_select_of_rank_least.
+
+Theorem C02_SelectFrom_is_select_of_rank : forall ws p, 0 <= p <= 64 * zlen ws ->
+  rank1z (flat ws) p < zlen (all_ones ws) ->
+  spec_Select ws (rank1z (flat ws) p) = spec_SelectFrom ws p.
+Proof. exact select_after_rank. Qed.
+Print Assumptions C02_SelectFrom_is_select_of_rank.
+
+(** non-vacuity: p = 64 is a 0-bit with a whole empty word and 63 more 0-bits before the next
+    1-bit (position 191); p = 191 is that 1-bit itself; p = 192 is the last 1-bit *)
+Example C02_select_of_rank_nonvacuous :
+  0 <= 64 < 64 * zlen c02_ex /\
+  Rank64 c02_ex (IndexRank64 c02_ex true) 64 = Some (33, 0) /\ 33 < zlen (all_ones c02_ex) /\
+  Select32 c02_ex [0; 32] 33 = Some (191, 192) /\ spec_SelectFrom c02_ex 64 = (191, 192) /\
+  Rank128 c02_ex (IndexRank128 c02_ex) 191 = Some (33, 1) /\ spec_SelectFrom c02_ex 191 = (191, 192) /\
+  Rank128 c02_ex (IndexRank128 c02_ex) 192 = Some (34, 1) /\
+  Select32R64 c02_ex [0; 32] [0; 33; 33; 34; 35] 34 = Some (192, 256) /\
+  spec_SelectFrom c02_ex 192 = (192, 256).
+Proof. vm_compute. intuition congruence. Qed.
+
+(** * widened: select against NextOne (C13's model, Model/BitmapNext.v) *)
+From Low Require Import Model.BitmapNext Proofs.SelectNext.
+
+(** NextOne over the whole rest of the bitmap = select of the rank there (or -1 when the rank
+    is already the total number of 1-bits) *)
+Theorem C02_NextOne_is_select_of_rank : forall ws p, words_ok ws -> 0 <= p < 64 * zlen ws ->
+  NextOne ws p (64 * zlen ws) =
+  Some (if rank1z (flat ws) p <? zlen (all_ones ws)
+        then fst (spec_Select ws (rank1z (flat ws) p)) else -1).
+Proof. exact NextOne_select_of_rank. Qed.
+Print Assumptions C02_NextOne_is_select_of_rank.
+
+(** ... stated over the three library functions as they are called *)
+Theorem C02_NextOne_is_Select32_of_Rank64 : forall ws tr sidx p r b a c, words_ok ws ->
+  IndexSelect32 ws = Some sidx -> 0 <= p < 64 * zlen ws ->
+  Rank64 ws (IndexRank64 ws tr) p = Some (r, b) -> r < zlen (all_ones ws) ->
+  Select32 ws sidx r = Some (a, c) ->
+  NextOne ws p (64 * zlen ws) = Some a.
+Proof. exact NextOne_is_Select32_of_Rank64. Qed.
+Print Assumptions C02_NextOne_is_Select32_of_Rank64.
+
+Theorem C02_NextOne_none_when_rank_total : forall ws tr p r b, words_ok ws ->
+  0 <= p < 64 * zlen ws ->
+  Rank64 ws (IndexRank64 ws tr) p = Some (r, b) -> zlen (all_ones ws) <= r ->
+  NextOne ws p (64 * zlen ws) = Some (-1).
+Proof. exact NextOne_none_iff_rank_total. Qed.
+Print Assumptions C02_NextOne_none_when_rank_total.
+
+(** the second component of a select result is what NextOne finds from just after the first
+    (NextOne's -1 corresponds to select's 64 * len) *)
+Theorem C02_Select32_then_NextOne : forall ws sidx i a b, words_ok ws ->
+  IndexSelect32 ws = Some sidx -> 0 <= i < zlen (all_ones ws) ->
+  Select32 ws sidx i = Some (a, b) -> a + 1 < 64 * zlen ws ->
+  NextOne ws (a + 1) (64 * zlen ws) = Some (if b <? 64 * zlen ws then b else -1).
+Proof. exact Select32_then_NextOne. Qed.
+Print Assumptions C02_Select32_then_NextOne.
+
+Theorem C02_Select32R64_then_NextOne : forall ws sidx ridx i a b, words_ok ws ->
+  IndexSelect32R64 ws = Some (sidx, ridx) -> 0 <= i < zlen (all_ones ws) ->
+  Select32R64 ws sidx ridx i = Some (a, b) -> a + 1 < 64 * zlen ws ->
+  NextOne ws (a + 1) (64 * zlen ws) = Some (if b <? 64 * zlen ws then b else -1).
+Proof. exact Select32R64_then_NextOne. Qed.
+Print Assumptions C02_Select32R64_then_NextOne.
+
+Example C02_NextOne_nonvacuous :
+  0 <= 64 < 64 * zlen c02_ex /\ NextOne c02_ex 64 256 = Some 191 /\
+  Select32 c02_ex [0; 32] 33 = Some (191, 192) /\ 191 + 1 < 64 * zlen c02_ex /\
+  NextOne c02_ex 192 256 = Some 192 /\
+  Select32 c02_ex [0; 32] 34 = Some (192, 256) /\ NextOne c02_ex 193 256 = Some (-1) /\
+  Rank64 c02_ex (IndexRank64 c02_ex true) 193 = Some (35, 0) /\ zlen (all_ones c02_ex) = 35.
+Proof. vm_compute. intuition congruence. Qed.
+
+(** * widened: select against ToArray (toarray.go, model in Model/BitmapOf.v) *)
+From Low Require Import Model.BitmapOf Proofs.SelectToArray.
+
+(** ToArray returns the ascending list of the 1-positions (the vocabulary of every theorem above) *)
+Theorem C02_ToArray_is_all_ones : forall ws, ToArray ws = Some (all_ones ws).
+Proof. exact c02_ToArray_all_ones. Qed.
+Print Assumptions C02_ToArray_is_all_ones.
+
+(** Select32 / Select32R64 with index i return elements i and i+1 of what ToArray returns *)
+Theorem C02_Select32_nth_ToArray : forall ws sidx ta i, words_ok ws ->
+  IndexSelect32 ws = Some sidx -> ToArray ws = Some ta -> 0 <= i < zlen ta ->
+  Select32 ws sidx i =
+  Some (nth (Z.to_nat i) ta 0, if i + 1 <? zlen ta then nth (Z.to_nat (i + 1)) ta 0 else 64 * zlen ws).
+Proof. exact Select32_nth_ToArray. Qed.
+Print Assumptions C02_Select32_nth_ToArray.
+
+Theorem C02_Select32R64_nth_ToArray : forall ws sidx ridx ta i, words_ok ws ->
+  IndexSelect32R64 ws = Some (sidx, ridx) -> ToArray ws = Some ta -> 0 <= i < zlen ta ->
+  Select32R64 ws sidx ridx i =
+  Some (nth (Z.to_nat i) ta 0, if i + 1 <? zlen ta then nth (Z.to_nat (i + 1)) ta 0 else 64 * zlen ws).
+Proof. exact Select32R64_nth_ToArray. Qed.
+Print Assumptions C02_Select32R64_nth_ToArray.
+
+(** the select index is every 32nd element of ToArray *)
+Theorem C02_IndexSelect32_of_ToArray : forall ws ta, ToArray ws = Some ta ->
+  IndexSelect32 ws = Some (map (fun k => nth (32 * k) ta 0) (seq 0 ((length ta + 31) / 32))).
+Proof. exact IndexSelect32_of_ToArray. Qed.
+Print Assumptions C02_IndexSelect32_of_ToArray.
+
+Example C02_ToArray_nonvacuous :
+  ToArray [5; 0; 2^63] = Some [0; 2; 191] /\ IndexSelect32 [5; 0; 2^63] = Some [0] /\
+  Select32 [5; 0; 2^63] [0] 1 = Some (2, 191) /\ Select32 [5; 0; 2^63] [0] 2 = Some (191, 192) /\
+  zlen (all_ones c02_ex) = 35 /\ IndexSelect32 c02_ex = Some [0; 32].
+Proof. vm_compute. intuition congruence. Qed.
+
+(** * range and monotonicity *)
+From Low Require Import Proofs.SelectExtra.
+
+(** under the size hypothesis [64 * len(words) < 2^31] every value involved fits Go's int32, so
+    the unbounded-[Z] statements above are statements about the int32 results *)
+Theorem C02_results_fit_int32 : forall ws i, 64 * zlen ws < 2 ^ 31 -> 0 <= i < zlen (all_ones ws) ->
+  0 <= fst (spec_Select ws i) < 2 ^ 31 /\ 0 <= snd (spec_Select ws i) < 2 ^ 31 /\ 0 <= i < 2 ^ 31.
+Proof. exact spec_Select_int32. Qed.
+Print Assumptions C02_results_fit_int32.
+
+Theorem C02_index_fits_int32 : forall ws x, 64 * zlen ws < 2 ^ 31 ->
+  In x (spec_IndexSelect32 ws) -> 0 <= x < 2 ^ 31.
+Proof. exact spec_IndexSelect32_int32. Qed.
+Print Assumptions C02_index_fits_int32.
+
+(** select is strictly increasing in i *)
+Theorem C02_select_increasing : forall ws i j, 0 <= i -> i < j < zlen (all_ones ws) ->
+  fst (spec_Select ws i) < fst (spec_Select ws j).
+Proof. exact spec_Select_increasing. Qed.
+Print Assumptions C02_select_increasing.
+
+Example C02_range_nonvacuous :
+  64 * zlen c02_ex < 2 ^ 31 /\ 0 <= 32 /\ 32 < 33 < zlen (all_ones c02_ex) /\
+  fst (spec_Select c02_ex 32) = 32 /\ fst (spec_Select c02_ex 33) = 191 /\
+  In 32 (spec_IndexSelect32 c02_ex).
+Proof. vm_compute. intuition congruence. Qed.
+
+(** * widened: select against PrevOne (C13's model) *)
+From Low Require Import Proofs.SelectPrev.
+
+(** the last 1-bit before the i-th 1-bit is the (i-1)-th; there is none before the 0-th *)
+Theorem C02_PrevOne_before_select : forall ws i, words_ok ws -> 0 <= i < zlen (all_ones ws) ->
+  let a := fst (spec_Select ws i) in
+  1 <= a ->
+  PrevOne ws 0 a = Some (if 0 <? i then fst (spec_Select ws (i - 1)) else -1).
+Proof. exact PrevOne_before_select. Qed.
+Print Assumptions C02_PrevOne_before_select.
+
+Theorem C02_Select32_then_PrevOne : forall ws sidx i a b, words_ok ws ->
+  IndexSelect32 ws = Some sidx -> 0 <= i < zlen (all_ones ws) ->
+  Select32 ws sidx i = Some (a, b) -> 1 <= a ->
+  PrevOne ws 0 a =
+  match (if 0 <? i then Select32 ws sidx (i - 1) else Some (-1, 0)) with
+  | Some (r, _) => Some r
+  | None => None
+  end.
+Proof. exact Select32_then_PrevOne. Qed.
+Print Assumptions C02_Select32_then_PrevOne.
+
+Theorem C02_Select32R64_then_PrevOne : forall ws sidx ridx i a b, words_ok ws ->
+  IndexSelect32R64 ws = Some (sidx, ridx) -> 0 <= i < zlen (all_ones ws) ->
+  Select32R64 ws sidx ridx i = Some (a, b) -> 1 <= a ->
+  PrevOne ws 0 a =
+  match (if 0 <? i then Select32R64 ws sidx ridx (i - 1) else Some (-1, 0)) with
+  | Some (r, _) => Some r
+  | None => None
+  end.
+Proof. exact Select32R64_then_PrevOne. Qed.
+Print Assumptions C02_Select32R64_then_PrevOne.
+
+Example C02_PrevOne_nonvacuous :
+  0 <= 33 < zlen (all_ones c02_ex) /\ fst (spec_Select c02_ex 33) = 191 /\
+  PrevOne c02_ex 0 191 = Some 32 /\ Select32 c02_ex [0; 32] 32 = Some (32, 191) /\
+  PrevOne [2^63; 2] 0 63 = Some (-1) /\ Select32 [2^63; 2] [63] 0 = Some (63, 65) /\
+  PrevOne [2^63; 2] 0 65 = Some 63.
+Proof. vm_compute. intuition congruence. Qed.
